@@ -247,6 +247,32 @@ def rearrange(rnd, t):
     return T.plus(RealType)(t, zero)
 
 
+def poly_goal_list(p, q, n):
+    from kernel.term import Eq
+    from kernel import term as T
+    from kernel.type import RealType
+    goals = [('real_norm', Eq(p, q))]
+    cmp1 = T.less(RealType)(p, q)
+    cmp2 = T.less(RealType)(T.minus(RealType)(p, q), T.Number(RealType, 0))
+    goals.append(('real_eq_comparison', Eq(cmp1, cmp2)))
+    goals.append(('real_eq_comparison', Eq(T.less_eq(RealType)(p, q), T.greater_eq(RealType)(q, p))))
+    goals.append(('real_eq_comparison', Eq(T.less(RealType)(p, q), T.less(RealType)(q, p))))
+    # casts: of_nat pushed through a natural-number expression (sound for + and *, not for truncated -)
+    from kernel.term import Var, Nat
+    from kernel.type import NatType
+    nv, mv = Var('n', NatType), Var('m', NatType)
+    natexprs = [nv - Nat(1), Nat(2) - nv, mv - nv, nv + mv, nv * mv, (nv - Nat(1)) + Nat(1), nv - nv, (mv - nv) * nv, Nat(2) - Nat(3), Nat(3) - Nat(2), (mv + nv) - nv]
+    ne = natexprs[n % len(natexprs)]
+
+    def push(e):
+        if e.is_plus() or e.is_minus() or e.is_times():
+            return getattr(T, 'plus' if e.is_plus() else 'minus' if e.is_minus() else 'times')(RealType)(push(e.arg1), push(e.arg))
+        return T.of_nat(RealType)(e)
+    goals.append(('real_norm', Eq(T.of_nat(RealType)(ne), push(ne))))
+    goals.append(('real_norm', Eq(T.plus(RealType)(T.of_nat(RealType)(ne), p), T.plus(RealType)(p, push(ne)))))
+    return goals
+
+
 def run_poly(u, out):
     from kernel.term import Eq
     from kernel import term as T
@@ -256,12 +282,7 @@ def run_poly(u, out):
     for n in range(lo, hi):
         p = poly_exprs(rnd, 3)
         q = rearrange(rnd, p) if rnd.random() < 0.7 else poly_exprs(rnd, 3)
-        goals = [('real_norm', Eq(p, q))]
-        cmp1 = T.less(RealType)(p, q)
-        cmp2 = T.less(RealType)(T.minus(RealType)(p, q), T.Number(RealType, 0))
-        goals.append(('real_eq_comparison', Eq(cmp1, cmp2)))
-        goals.append(('real_eq_comparison', Eq(T.less_eq(RealType)(p, q), T.greater_eq(RealType)(q, p))))
-        goals.append(('real_eq_comparison', Eq(T.less(RealType)(p, q), T.less(RealType)(q, p))))
+        goals = poly_goal_list(p, q, n)
         for macro, goal in goals:
             th = one_step(macro, goal)
             out['evals'] += 1
@@ -288,8 +309,7 @@ def replay_poly(c):
     for n in range(c['lo'], c['n'] + 1):
         p = poly_exprs(rnd, 3)
         q = rearrange(rnd, p) if rnd.random() < 0.7 else poly_exprs(rnd, 3)
-    goals = [('real_norm', Eq(p, q)), ('real_eq_comparison', Eq(T.less(RealType)(p, q), T.less(RealType)(T.minus(RealType)(p, q), T.Number(RealType, 0)))),
-             ('real_eq_comparison', Eq(T.less_eq(RealType)(p, q), T.greater_eq(RealType)(q, p))), ('real_eq_comparison', Eq(T.less(RealType)(p, q), T.less(RealType)(q, p)))]
+    goals = poly_goal_list(p, q, c['n'])
     for macro, goal in goals:
         if macro == c['macro'] and repr(goal) == c['goal']:
             th = one_step(macro, goal)
